@@ -49,7 +49,7 @@ var fnWhitelist = map[string][]string{
 		"Info.Validate", "Export.Validate", "isContainedIn", "Exports.Validate", "Exports.HasExportContainingSubject", "Mapping.Validate",
 		"CreateValidationResults", "ResponsePermission.Validate", "Permissions.Validate",
 		"OperatorLimits.IsEmpty", "OperatorLimits.Validate", "ExternalAuthorization.Validate",
-		"UserScope.Validate", "SigningKeys.Validate", "Account.Validate", "AccountClaims.Validate", "GenericClaims.Validate", "AuthorizationRequestClaims.Validate", "AuthorizationResponseClaims.Validate", "TimeRange.Validate", "Limits.Validate", "User.Validate", "UserClaims.Validate", "ParseServerVersion", "Operator.validateAccountServerURL", "ValidateOperatorServiceURL", "Operator.validateOperatorServiceURLs", "Operator.Validate", "OperatorClaims.Validate", "OperatorClaims.ExpectedPrefixes", "AccountClaims.ExpectedPrefixes", "UserClaims.ExpectedPrefixes", "ActivationClaims.ExpectedPrefixes", "AuthorizationRequestClaims.ExpectedPrefixes", "AuthorizationResponseClaims.ExpectedPrefixes", "GenericClaims.ExpectedPrefixes", "v1OperatorClaims.migrateV1", "v1UserClaims.migrateV1", "v1ActivationClaims.migrateV1", "SigningKeys.Add", "v1AccountClaims.migrateV1", "v1OperatorClaims.Migrate", "v1UserClaims.Migrate", "v1ActivationClaims.Migrate", "v1AccountClaims.Migrate", "loadOperator", "loadAccount", "loadUser", "loadActivation", "loadAuthorizationRequest", "loadAuthorizationResponse", "loadClaims", "ClaimsData.verify", "parseHeaders", "Decode", "UserClaims.Encode", "ActivationClaims.Encode", "OperatorClaims.Encode", "AccountClaims.Encode", "GenericClaims.Encode", "AuthorizationRequestClaims.Encode", "AuthorizationResponseClaims.Encode", "OperatorClaims.updateVersion", "AccountClaims.updateVersion", "UserClaims.updateVersion", "ActivationClaims.updateVersion", "AuthorizationRequestClaims.updateVersion", "AuthorizationResponseClaims.updateVersion", "DecodeActivationClaims", "DecodeOperatorClaims", "DecodeAccountClaims", "DecodeUserClaims", "DecodeAuthorizationRequestClaims", "DecodeAuthorizationResponseClaims", "UserScope.ValidateScopedSigner", "NewUserClaims", "UserClaims.SetScoped", "UserScope.SigningKey", "SigningKeys.AddScopedSigner", "SigningKeys.GetScope", "SigningKeys.Remove", "SigningKeys.Keys", "DecodeGeneric", "IssueUserJWT", "Exports.Len", "Exports.Less", "Imports.Len", "Imports.Less", "ActivationClaims.HashID", "ClaimsData.hash", "AccountClaims.ClaimType", "ActivationClaims.ClaimType", "AuthorizationRequestClaims.ClaimType", "AuthorizationResponseClaims.ClaimType", "IsGenericClaimType", "OperatorClaims.ClaimType", "UserClaims.ClaimType", "NewAccountClaims", "NewActivationClaims", "NewAuthorizationRequestClaims", "NewAuthorizationResponseClaims", "NewGenericClaims", "NewOperatorClaims", "NewUserScope", "ExternalAuthorization.IsEnabled", "Account.HasExternalAuthorization", "Account.EnableExternalAuthorization", "OperatorLimits.IsJSEnabled", "AccountLimits.IsUnlimited", "OperatorLimits.IsUnlimited", "UserClaims.IsBearerToken", "AccountClaims.GetTags", "OperatorClaims.GetTags", "UserClaims.GetTags", "ValidationResults.Errors", "ValidationResults.Warnings", "ExportType.String", "ScopeType.String", "Exports.Add", "Imports.Add", "Account.AddMapping", "ValidationIssue.Error",
+		"UserScope.Validate", "SigningKeys.Validate", "Account.Validate", "AccountClaims.Validate", "GenericClaims.Validate", "AuthorizationRequestClaims.Validate", "AuthorizationResponseClaims.Validate", "TimeRange.Validate", "Limits.Validate", "User.Validate", "UserClaims.Validate", "ParseServerVersion", "Operator.validateAccountServerURL", "ValidateOperatorServiceURL", "Operator.validateOperatorServiceURLs", "Operator.Validate", "OperatorClaims.Validate", "OperatorClaims.ExpectedPrefixes", "AccountClaims.ExpectedPrefixes", "UserClaims.ExpectedPrefixes", "ActivationClaims.ExpectedPrefixes", "AuthorizationRequestClaims.ExpectedPrefixes", "AuthorizationResponseClaims.ExpectedPrefixes", "GenericClaims.ExpectedPrefixes", "v1OperatorClaims.migrateV1", "v1UserClaims.migrateV1", "v1ActivationClaims.migrateV1", "SigningKeys.Add", "v1AccountClaims.migrateV1", "v1OperatorClaims.Migrate", "v1UserClaims.Migrate", "v1ActivationClaims.Migrate", "v1AccountClaims.Migrate", "loadOperator", "loadAccount", "loadUser", "loadActivation", "loadAuthorizationRequest", "loadAuthorizationResponse", "loadClaims", "ClaimsData.verify", "parseHeaders", "Decode", "UserClaims.Encode", "ActivationClaims.Encode", "OperatorClaims.Encode", "AccountClaims.Encode", "GenericClaims.Encode", "AuthorizationRequestClaims.Encode", "AuthorizationResponseClaims.Encode", "OperatorClaims.updateVersion", "AccountClaims.updateVersion", "UserClaims.updateVersion", "ActivationClaims.updateVersion", "AuthorizationRequestClaims.updateVersion", "AuthorizationResponseClaims.updateVersion", "DecodeActivationClaims", "DecodeOperatorClaims", "DecodeAccountClaims", "DecodeUserClaims", "DecodeAuthorizationRequestClaims", "DecodeAuthorizationResponseClaims", "UserScope.ValidateScopedSigner", "NewUserClaims", "UserClaims.SetScoped", "UserScope.SigningKey", "SigningKeys.AddScopedSigner", "SigningKeys.GetScope", "SigningKeys.Remove", "SigningKeys.Keys", "DecodeGeneric", "IssueUserJWT", "Exports.Len", "Exports.Less", "Imports.Len", "Imports.Less", "ActivationClaims.HashID", "ClaimsData.hash", "ParseDecoratedUserNKey", "AccountClaims.ClaimType", "ActivationClaims.ClaimType", "AuthorizationRequestClaims.ClaimType", "AuthorizationResponseClaims.ClaimType", "IsGenericClaimType", "OperatorClaims.ClaimType", "UserClaims.ClaimType", "NewAccountClaims", "NewActivationClaims", "NewAuthorizationRequestClaims", "NewAuthorizationResponseClaims", "NewGenericClaims", "NewOperatorClaims", "NewUserScope", "ExternalAuthorization.IsEnabled", "Account.HasExternalAuthorization", "Account.EnableExternalAuthorization", "OperatorLimits.IsJSEnabled", "AccountLimits.IsUnlimited", "OperatorLimits.IsUnlimited", "UserClaims.IsBearerToken", "AccountClaims.GetTags", "OperatorClaims.GetTags", "UserClaims.GetTags", "ValidationResults.Errors", "ValidationResults.Warnings", "ExportType.String", "ScopeType.String", "Exports.Add", "Imports.Add", "Account.AddMapping", "ValidationIssue.Error",
 	},
 	"V1": {
 		"Subject.HasWildCards", "Subject.IsContainedIn", "cleanSubject",
@@ -255,7 +255,7 @@ var nilableElems = map[string]bool{"Export": true, "Import": true}
 // opaqueFnsV1: additionally opaque in the v1compat package only
 var opaqueFnsV1 = map[string]bool{"ClaimsData.Encode": true}
 
-var opaqueFns = map[string]bool{"UserClaims.HasEmptyPermissions": true, "parseClaims": true, "ClaimsData.encode": true, "decodeString": true}
+var opaqueFns = map[string]bool{"UserClaims.HasEmptyPermissions": true, "parseClaims": true, "ClaimsData.encode": true, "decodeString": true, "ParseDecoratedNKey": true}
 
 // foreignOpaque: functions of other packages that translated code may call; each becomes a field of `Opq`
 // (name, Lean type of the field, and how a two-value result is read)
@@ -266,6 +266,8 @@ var foreignOpaque = map[string]string{
 	"base32.StdNoPadEncode":          "(List Int) → Str",                     // base32.StdEncoding.WithPadding(base32.NoPadding).EncodeToString                     // base32.StdEncoding.EncodeToString
 	"time.NowAddUnix":                "Int → Int",                            // time.Now().Add(d).Unix(): a parameter
 	"strconv.Atoi":                   "Str → Option Int",                     // none = the error result
+	"nkeys.FromSeed":                 "(List Int) → Option Nat",              // none = the error result
+	"KeyPair.Seed":                   "Nat → Option (List Int)",              // the method of nkeys.KeyPair; none = the error result
 	"nkeys.FromPublicKey":            "Str → Option Nat",                     // none = the error result; a key pair is an uninterpreted handle
 	"nkeys.Decode":                   "Int → (List Int) → Option (List Int)", // none = the error result
 	"nkeys.Prefix":                   "Str → Int",
@@ -984,6 +986,9 @@ func (c *fnCtx) expr(e ast.Expr) ex {
 			if _, isM := t.Underlying().(*types.Map); isM {
 				return ex{"none", false} // a nil map
 			}
+			if c.g.leanTypeQuiet(t) == "Nat" {
+				return ex{"(0 : Nat)", false} // a nil key pair, only ever returned next to an error: the handle is not meaningful then
+			}
 			unsup("bare nil")
 		}
 		if x.Name == "true" || x.Name == "false" {
@@ -1512,6 +1517,9 @@ func (c *fnCtx) call(x *ast.CallExpr) ex {
 				c.g.needForeign(c.hashVars[o])
 				return ex{"(opq." + strings.ReplaceAll(c.hashVars[o], ".", "_") + " " + c.nameOf(o) + ")", false}
 			}
+		}
+		if qual == "bytes.HasPrefix" && len(x.Args) == 2 {
+			return c.pureApp("bytesHasPrefix", c.expr(x.Args[0]), c.expr(x.Args[1]))
 		}
 		if types.ExprString(x.Fun) == "base32.StdEncoding.WithPadding(base32.NoPadding).EncodeToString" && len(x.Args) == 1 {
 			c.g.needForeign("base32.StdNoPadEncode")
@@ -2168,6 +2176,10 @@ func (c *fnCtx) stmt(b *block, s ast.Stmt) {
 				vals = append(vals, "false")
 				continue
 			}
+			if c.isNilExpr(r) && c.g.leanTypeQuiet(c.fi.results[i]) == "Nat" {
+				vals = append(vals, "(0 : Nat)") // a nil key pair, only ever returned next to an error: the handle means nothing then
+				continue
+			}
 			if _, isI := c.g.ifaceOf(c.fi.results[i]); isI {
 				if c.isNilExpr(r) {
 					vals = append(vals, "none")
@@ -2632,6 +2644,20 @@ func (c *fnCtx) assign(b *block, x *ast.AssignStmt) {
 			}
 		}
 	}
+	// seed, err := kp.Seed() on a key-pair handle
+	if len(x.Lhs) == 2 && len(x.Rhs) == 1 {
+		if call, ok := x.Rhs[0].(*ast.CallExpr); ok && len(call.Args) == 0 {
+			if se, ok := call.Fun.(*ast.SelectorExpr); ok && se.Sel.Name == "Seed" && c.g.leanTypeQuiet(c.typeOf(se.X)) == "Nat" {
+				c.g.needForeign("KeyPair.Seed")
+				c.tmpN++
+				tmp := fmt.Sprintf("__f%d", c.tmpN)
+				b.add("let %s := opq.KeyPair_Seed %s", tmp, c.expr(se.X).bind())
+				c.store(b, x.Lhs[0], "("+tmp+".getD ([] : List Int))")
+				c.store(b, x.Lhs[1], tmp+".isNone")
+				return
+			}
+		}
+	}
 	// v, err := strconv.Atoi(s)
 	if len(x.Lhs) == 2 && len(x.Rhs) == 1 {
 		if call, ok := x.Rhs[0].(*ast.CallExpr); ok {
@@ -2643,7 +2669,7 @@ func (c *fnCtx) assign(b *block, x *ast.AssignStmt) {
 				c.tmpN++
 				tmp := fmt.Sprintf("__f%d", c.tmpN)
 				b.add("let %s := opq.%s %s", tmp, strings.ReplaceAll(q, ".", "_"), strings.Join(as, " "))
-				if z, ok := map[string]string{"nkeys.FromPublicKey": "(0 : Nat)", "nkeys.Decode": "([] : List Int)"}[q]; ok {
+				if z, ok := map[string]string{"nkeys.FromPublicKey": "(0 : Nat)", "nkeys.FromSeed": "(0 : Nat)", "nkeys.Decode": "([] : List Int)"}[q]; ok {
 					c.store(b, x.Lhs[0], "("+tmp+".getD "+z+")")
 					c.store(b, x.Lhs[1], tmp+".isNone")
 					return
@@ -3204,6 +3230,9 @@ func genFns(infos []pkgInfo) (string, string, map[string]string) {
 						fi.usesOpq, changed = true, true
 					}
 					if q := selName(call.Fun); (q == "json.Unmarshal" || q == "json.Marshal" || q == "sort.Sort") && !fi.usesOpq {
+						fi.usesOpq, changed = true, true
+					}
+					if se, ok := call.Fun.(*ast.SelectorExpr); ok && se.Sel.Name == "Seed" && len(call.Args) == 0 && !fi.usesOpq {
 						fi.usesOpq, changed = true, true
 					}
 					if q := types.ExprString(call.Fun); (q == "sha256.New" || q == "sha512.New512_256" || q == "base32.StdEncoding.EncodeToString") && !fi.usesOpq {
